@@ -4,13 +4,12 @@ From Coq Require Import Permutation.
 
 (* what the specification demands of the answer [r] of one call when the map is [m]:
    DeleteAttribute succeeds exactly on present names; a value the API cannot encode is refused;
-   WriteAttribute may be refused (capacity limits: see write_err_cases), it panics only on a name of
-   65535 bytes or more *)
+   WriteAttribute may be refused (capacity limits: Proofs/AttrRefusal.v) *)
 Definition res_ok (m : smap) (o : op) (r : res) : Prop :=
   match o with
   | ODelete n => r = snd (spec_delete m n)
   | OWrite n None => r = RErr
-  | OWrite n (Some v) => r = ROk \/ r = RErr \/ (r = RPanic /\ 65535 <= blen n)
+  | OWrite n (Some v) => r = ROk \/ r = RErr
   end.
 
 Fixpoint results_ok (m : smap) (h : list op) (rs : list res) : Prop :=
@@ -55,11 +54,8 @@ Proof.
       * unfold spec_delete. rewrite <- T. destruct (attr_get l n); [reflexivity | congruence].
   - destruct E as [-> E]. split.
     + intro k. destruct o as [n [v|]|n]; cbn [spec_step]; apply T.
-    + destruct o as [n [v|]|n]; cbn [res_ok]; [right; left; reflexivity | reflexivity|].
+    + destruct o as [n [v|]|n]; cbn [res_ok]; [right; reflexivity | reflexivity|].
       unfold spec_delete. rewrite <- T, E. reflexivity.
-  - destruct E as [-> E]. destruct o as [n [v|]|n]; [|contradiction|contradiction]. split.
-    + intro k. cbn [spec_step]. apply T.
-    + cbn [res_ok]. right; right. split; [reflexivity | exact E].
 Qed.
 
 Lemma run_refines : forall h st l m st' rs,
@@ -145,7 +141,7 @@ Theorem transition_preserves : forall attrs a ix hp,
   exists l, read_attrs (Dense ix hp) = Some l /\ Permutation l (attrs ++ [a]).
 Proof.
   intros attrs a ix hp H. unfold transition in H.
-  destruct (daw_add_all name_hash P [] [] heap_empty (attrs ++ [a])) as [ix0 hp0| | |] eqn:D; try discriminate.
+  destruct (daw_add_all name_hash P [] [] heap_empty (attrs ++ [a])) as [ix0 hp0| |] eqn:D; try discriminate.
   - destruct (p_limit P <? p_base P + (4 + p_info P)); inversion H; subst.
     destruct (daw_ok name_hash P Hcap _ _ _ _ [] _ _ (dense_rep_empty name_hash P Hcap)
                 (fun m => conj (fun x => x) (fun x => x)) D) as [l [R [PM _]]].
@@ -300,9 +296,8 @@ Proof.
   intros attrs a st0 r0 F H. unfold transition in H.
   pose proof (daw_volume (attrs ++ [a]) [] [] heap_empty) as DV.
   rewrite msgs_total_app in DV. cbn [msgs_total heap_empty hfree] in DV. specialize (DV ltac:(lia)).
-  destruct (daw_add_all name_hash P [] [] heap_empty (attrs ++ [a])) as [ix hp| | |].
+  destruct (daw_add_all name_hash P [] [] heap_empty (attrs ++ [a])) as [ix hp| |].
   - destruct (p_limit P <? p_base P + (4 + p_info P)); inversion H; subst; cbn [vol]; split; try discriminate; lia.
-  - inversion H; subst; cbn [vol]; split; [discriminate | lia].
   - inversion H; subst; cbn [vol]; split; [discriminate | lia].
   - destruct DV.
 Qed.
@@ -313,7 +308,7 @@ Proof.
   intros st o st' r NB F H. destruct o as [n [v|]|n]; cbn [step write_attr delete_attr op_volume] in *.
   - destruct st as [attrs|ix hp|]; [| |contradiction]; cbn [vol] in *.
     + destruct (N.of_nat (List.length attrs) <? p_maxc P); [|eapply transition_volume; eassumption].
-      unfold write_compact in H. destruct (encode_attr (mkAttr n v)) as [sz| |];
+      unfold write_compact in H. destruct (encode_attr (mkAttr n v)) as [sz|];
         try (inversion H; subst; cbn [vol]; split; [discriminate | lia]).
       destruct (replace_name (aname (mkAttr n v)) (mkAttr n v) attrs) as [attrs'|] eqn:RN.
       * apply replace_name_total in RN.
@@ -321,7 +316,7 @@ Proof.
       * destruct (p_limit P <? hdr_size P attrs + (4 + sz)); [eapply transition_volume; eassumption|].
         inversion H; subst; cbn [vol]. rewrite msgs_total_app. cbn [msgs_total]. split; [discriminate | lia].
     + unfold write_dense in H.
-      destruct (encode_attr (mkAttr n v)) as [sz| |]; try (inversion H; subst; cbn [vol]; split; [discriminate | lia]).
+      destruct (encode_attr (mkAttr n v)) as [sz|]; try (inversion H; subst; cbn [vol]; split; [discriminate | lia]).
       destruct (idx_search (name_hash (aname (mkAttr n v))) ix) as [id|].
       * destruct (heap_get hp id); [|inversion H; subst; cbn [vol]; split; [discriminate | lia]].
         destruct (sz =? snd id).
@@ -373,3 +368,16 @@ Proof.
 Qed.
 
 End Volume.
+
+(* ---- the statement for the parameter values of the current source tree: the only hypothesis left is that
+        the names used do not collide under the hash ---- *)
+Theorem refines_map_go : forall name_hash base h st rs,
+  NoHashCollision name_hash (names h) ->
+  run name_hash (go_params base) init h = (st, rs) ->
+  exists l, read_attrs st = Some l /\ NoDup (map aname l) /\
+            (forall n, attr_get l n = sp_get (run_spec [] h rs) n) /\
+            results_ok [] h rs.
+Proof.
+  intros f base h st rs NC H. apply (refines_map_repaired f (go_params base) eq_refl h st rs); try assumption.
+  cbn. lia.
+Qed.
